@@ -1,15 +1,21 @@
 //! Harnesses for property C18 (see /verif/properties.jsonl): server answers echo the request
 //! correctly and reflect nothing else.
+//!
+//! Shape of every harness (forced by what CBMC's symbolic execution can fold, all measured):
+//! * symbolic: every content byte of the request (header fields, timestamps, identifiers, field
+//!   bodies), the reception time, the clock reading and the server's synchronisation state;
+//! * constant per run: the request's first byte (LI/version/mode), its length and the type/length
+//!   words of its extension fields (layout template), and the policy outcome (`Policy`). A
+//!   symbolic policy makes `handle_inner`'s `Result` symbolic and everything behind the `?`
+//!   is then an ite with uninitialised data (unbounded phantom loops in the serializer).
+//!   The modes are run one after the other inside a harness, on the same symbolic inputs.
 use crate::common::*;
 use crate::stubs;
 use ntp_proto::verif::packet::v5::server_reference_id as bh;
 use ntp_proto::*;
 
-/// Plain (non-NTS) request without extension fields: run once and check the answer.
-/// `b0_concrete`: the first byte (LI/version/mode) is a constant, which keeps the version
-/// dispatch out of the symbolic state (symbolic version bits make symex walk the NTPv5 decoder,
-/// incl. UTF-8 validation, on every path).
-fn echo_plain(msg: &[u8], env: &Env) {
+/// Plain (non-NTS) request without extension fields: handle once and check the answer.
+fn echo_plain(msg: &[u8], env: &Env) -> Option<Kind> {
     let mut server = env.server(v5::BloomFilter::new(), empty_keyset());
     let mut stats = RecStats::default();
     let mut backing = [0u8; BUF + SLACK];
@@ -19,7 +25,7 @@ fn echo_plain(msg: &[u8], env: &Env) {
 
     let len = msg.len();
     let ver = (msg[0] >> 3) & 7;
-    // v3: 48 + optional MAC of 4..=24 bytes; v4: the same (<= 24 trailing bytes are a MAC)
+    // v3/v4: 48-byte header + optional MAC of 4..=24 bytes (in v4 <= 24 trailing bytes are a MAC)
     let well_formed = (len == 48 || (len >= 52 && len <= 72)) && (ver == 3 || ver == 4) && msg[0] & 7 == 3;
     match out {
         None => {
@@ -28,58 +34,88 @@ fn echo_plain(msg: &[u8], env: &Env) {
         Some(n) => {
             assert!(ver == 3 || ver == 4, "only v3/v4 requests can be answered without extension fields");
             assert!(msg[0] & 7 == 3, "only client-mode requests are answered");
+            assert!(well_formed, "only well-formed requests are answered");
             assert!(n == 48, "no extension fields, no MAC in the answer");
             let expect = if env.deny_client || env.require_nts == 1 { Kind::Deny } else { Kind::Time };
             assert!(env.require_nts != 2, "non-NTS request ignored when NTS is required (ignore)");
             check_header_v34(&buf[..n], msg, expect, env);
-            kani::cover!(expect == Kind::Time && ver == 3, "v3 time answer");
-            kani::cover!(expect == Kind::Time && ver == 4, "v4 time answer");
-            kani::cover!(expect == Kind::Time && len == 52, "time answer to a request with a 4-byte MAC");
-            kani::cover!(expect == Kind::Time && len == 72, "time answer to a request with a 24-byte MAC");
-            kani::cover!(expect == Kind::Deny && env.deny_client, "DENY by address policy");
-            kani::cover!(expect == Kind::Deny && !env.deny_client, "DENY because NTS is required");
-            kani::cover!(expect == Kind::Time && rd64(buf, 16) == UPGRADE_MAGIC, "upgrade marker answered");
             kani::cover!(expect == Kind::Time && env.stratum == 0, "time answer with stratum 0 still carries timestamps");
+            assert!(stats.calls == 1, "statistics registered exactly once");
+            return Some(expect);
         }
     }
     assert!(stats.calls == 1, "statistics registered exactly once");
+    None
 }
 
 srv_harness! {
-    #[kani::unwind(4)]
-    fn c18_echo_b0() {
-        // 48 bytes, all symbolic including LI/version/mode (every version, every mode).
-        let msg: [u8; 48 + SLACK] = kani::any();
-        let env = Env::any();
-        echo_plain(&msg[..48], &env);
-    }
-}
-
-srv_harness! {
-    #[kani::unwind(4)]
+    #[kani::unwind(3)]
     fn c18_echo_v3() {
-        // header + MAC of every accepted size behind a constant first byte (LI 0, version 3, client mode)
-        let mut msg: [u8; 72 + SLACK] = kani::any();
+        // header + nothing / + 4-byte MAC, first byte = LI 0, version 3, client mode
+        let mut msg: [u8; 52 + SLACK] = kani::any();
         msg[0] = 0x1B;
         let env = Env::any();
-        // concrete lengths (a symbolic length makes every length test in the parser symbolic):
-        // bare header, 4-byte MAC (crypto-NAK size), 20-byte MAC, 24-byte MAC, and two malformed sizes
-        echo_plain(&msg[..48], &env);
-        echo_plain(&msg[..52], &env);
+        let a = echo_plain(&msg[..48], &env.with(Policy::Serve));
+        let b = echo_plain(&msg[..52], &env.with(Policy::Serve));
+        let c = echo_plain(&msg[..48], &env.with(Policy::DenyAddress));
+        let d = echo_plain(&msg[..48], &env.with(Policy::DenyNonNts));
+        let e = echo_plain(&msg[..48], &env.with(Policy::IgnoreNonNts));
+        kani::cover!(a == Some(Kind::Time), "time answer");
+        kani::cover!(b == Some(Kind::Time), "time answer to a request with a 4-byte MAC");
+        kani::cover!(c == Some(Kind::Deny), "DENY by address policy");
+        kani::cover!(d == Some(Kind::Deny), "DENY because NTS is required");
+        kani::cover!(e.is_none(), "ignored because NTS is required");
     }
 }
 
 srv_harness! {
-    #[kani::unwind(4)]
+    #[kani::unwind(3)]
     fn c18_echo_v4() {
-        // header + MAC of every accepted size behind a constant first byte (LI 0, version 4, client mode)
-        let mut msg: [u8; 72 + SLACK] = kani::any();
+        // header + nothing / + 4-byte MAC, first byte = LI 0, version 4, client mode
+        let mut msg: [u8; 52 + SLACK] = kani::any();
         msg[0] = 0x23;
         let env = Env::any();
-        // concrete lengths (a symbolic length makes every length test in the parser symbolic):
-        // bare header, 4-byte MAC (crypto-NAK size), 20-byte MAC, 24-byte MAC, and two malformed sizes
-        echo_plain(&msg[..48], &env);
-        echo_plain(&msg[..52], &env);
+        let a = echo_plain(&msg[..48], &env.with(Policy::Serve));
+        let b = echo_plain(&msg[..52], &env.with(Policy::Serve));
+        let c = echo_plain(&msg[..48], &env.with(Policy::DenyAddress));
+        let d = echo_plain(&msg[..48], &env.with(Policy::DenyNonNts));
+        let e = echo_plain(&msg[..48], &env.with(Policy::IgnoreNonNts));
+        kani::cover!(a == Some(Kind::Time), "time answer");
+        kani::cover!(b == Some(Kind::Time), "time answer to a request with a 4-byte MAC");
+        kani::cover!(c == Some(Kind::Deny), "DENY by address policy");
+        kani::cover!(d == Some(Kind::Deny), "DENY because NTS is required");
+        kani::cover!(e.is_none(), "ignored because NTS is required");
+        kani::cover!(a == Some(Kind::Time) && rd64(&msg, 16) == UPGRADE_MAGIC, "v5 upgrade marker requested and answered");
+    }
+}
+
+srv_harness! {
+    #[kani::unwind(17)]
+    fn c18_echo_first_byte() {
+        // other first bytes (48-byte requests, serving policy): LI 3; every other mode of v4;
+        // versions 0,1,2,6,7 and a v5 request without draft identification: LI is ignored,
+        // everything that is not a v3/v4 client request is dropped. Also MAC sizes 20/24 and two
+        // malformed lengths.
+        let mut msg: [u8; 72 + SLACK] = kani::any();
+        let env = Env::any().with(Policy::Serve);
+        const B0: [u8; 15] = [0xE3, 0xDB, 0x20, 0x21, 0x22, 0x24, 0x25, 0x26, 0x27, 0x03, 0x0B, 0x13, 0x33, 0x3B, 0x2B];
+        let mut i = 0;
+        while i < B0.len() {
+            msg[0] = B0[i];
+            let r = echo_plain(&msg[..48], &env);
+            kani::cover!(i < 2 && r == Some(Kind::Time), "LI bits of the request are ignored");
+            kani::cover!(i >= 2 && r.is_none(), "not a v3/v4 client request: dropped");
+            i += 1;
+        }
+        msg[0] = 0x23;
+        let r = echo_plain(&msg[..68], &env);
+        kani::cover!(r == Some(Kind::Time), "20-byte MAC");
+        let r = echo_plain(&msg[..72], &env);
+        kani::cover!(r == Some(Kind::Time), "24-byte MAC");
+        let r = echo_plain(&msg[..47], &env);
+        kani::cover!(r.is_none(), "short datagram dropped");
+        let r = echo_plain(&msg[..50], &env);
+        kani::cover!(r.is_none(), "2 trailing bytes: dropped");
     }
 }
 
@@ -97,7 +133,7 @@ pub fn check_v4_fields_are_uid_echoes(resp: &[u8], n: usize, req: &[u8], uids: &
         assert!(pos + 4 <= n, "answer holds an echo for every unique identifier of the request");
         assert!(rd16(resp, pos) == EF_UID, "answer field is a unique identifier");
         let l = rd16(resp, pos + 2) as usize;
-        assert!(l >= 4 + plen && l % 4 == 0 && pos + l <= n, "echoed field is well-formed");
+        assert!(l >= 4 + plen && l % 4 == 0 && l <= 64 && pos + l <= n, "echoed field is well-formed");
         assert!(same(resp, pos + 4, req, off, plen), "unique identifier echoed unchanged");
         assert!(all_zero(resp, pos + 4 + plen, l - 4 - plen), "padding of the echoed field is zero (nothing else reflected)");
         pos += l;
@@ -106,127 +142,154 @@ pub fn check_v4_fields_are_uid_echoes(resp: &[u8], n: usize, req: &[u8], uids: &
     assert!(pos == n, "nothing follows the echoed unique identifiers");
 }
 
+fn reflect_v4_once(msg: &[u8], env: &Env) -> Option<Kind> {
+    let mut server = env.server(v5::BloomFilter::new(), empty_keyset());
+    let mut stats = RecStats::default();
+    let mut buf_backing = [0u8; BUF + SLACK];
+    let buf = &mut buf_backing[..BUF];
+    let out = handle_once(&mut server, env, msg, buf, &mut stats);
+    std::mem::forget(server);
+    match out {
+        None => {
+            assert!(env.require_nts == 2, "well-formed client request is answered");
+            None
+        }
+        Some(n) => {
+            let expect = if env.deny_client || env.require_nts == 1 { Kind::Deny } else { Kind::Time };
+            check_header_v34(&buf[..n], msg, expect, env);
+            check_v4_fields_are_uid_echoes(buf, n, msg, &[(68, 32)]);
+            Some(expect)
+        }
+    }
+}
+
+/// T{ header48 | other(unknown type, 12 bytes) | uid(32) }: every byte symbolic, then the constant
+/// words written element-wise (CBMC keeps per-element constants only for element-wise stores):
+/// first byte, field types and lengths. Two fields only: every loop that iterates by pointer
+/// (Vec::into_iter, slice iterators, drop glue) is unrolled up to the unwind bound whatever its
+/// real trip count, nested, so the bound (= number of fields + 1) decides the cost.
+fn reflect_v4(policy: Policy) -> Option<Kind> {
+    const LEN: usize = 48 + 16 + 36;
+    let mut backing: [u8; LEN + SLACK] = kani::any();
+    let msg = &mut backing[..LEN];
+    let env = Env::any();
+    msg[0] = 0x23; // LI 0, version 4, client mode
+    put_ef(msg, 48, OTHER_TYPE, 16);
+    put_ef(msg, 64, EF_UID, 36);
+    reflect_v4_once(msg, &env.with(policy))
+}
+
 srv_harness! {
-    #[kani::unwind(5)]
-    fn c18_reflect_v4() {
-        // T{ header48 | uid(8) | other(unknown type, 12 bytes) | uid(32) }: contents symbolic, type and
-        // length fields constant (symbolic types make symex walk every field decoder, incl. NTS).
-        const LEN: usize = 48 + 12 + 16 + 36;
-        // every byte symbolic, then the constant fields written element-wise (no memcpy: CBMC
-        // keeps per-element constants only for element-wise stores)
-        let mut backing: [u8; LEN + SLACK] = kani::any();
-        let msg = &mut backing[..LEN];
-        let env = Env::any();
-        msg[0] = 0x23; // LI 0, version 4, client mode (constant: see echo_plain)
-        put_ef(msg, 48, EF_UID, 12);
-        put_ef(msg, 60, OTHER_TYPE, 16);
-        put_ef(msg, 76, EF_UID, 36);
+    #[kani::unwind(3)]
+    fn c18_reflect_v4_time() {
+        let r = reflect_v4(Policy::Serve);
+        kani::cover!(r == Some(Kind::Time), "time answer with echoed identifier");
+    }
+}
 
-        let mut server = env.server(v5::BloomFilter::new(), empty_keyset());
-        let mut stats = RecStats::default();
-        let mut buf_backing = [0u8; BUF + SLACK];
-        let buf = &mut buf_backing[..BUF];
-        let out = handle_once(&mut server, &env, msg, buf, &mut stats);
-        std::mem::forget(server);
+srv_harness! {
+    #[kani::unwind(3)]
+    fn c18_reflect_v4_deny() {
+        let r = reflect_v4(Policy::DenyAddress);
+        kani::cover!(r == Some(Kind::Deny), "DENY answer with echoed identifier");
+    }
+}
 
-        match out {
-            None => {
-                assert!(env.require_nts == 2, "well-formed client request is answered");
+fn reflect_v5_once(msg: &[u8], env: &Env, bloom: &[u8; 512]) {
+    let mut server = env.server(bh::bloom_from_bytes(*bloom), empty_keyset());
+    let mut stats = RecStats::default();
+    let mut buf_backing = [0u8; BUF + SLACK];
+    let buf = &mut buf_backing[..BUF];
+    let out = handle_once(&mut server, env, msg, buf, &mut stats);
+    std::mem::forget(server);
+
+    let bloom_off = rd16(msg, 64) as usize;
+    match out {
+        None => {
+            assert!(env.require_nts == 2, "well-formed client request is answered");
+        }
+        Some(n) => {
+            let resp = &buf[..n];
+            let expect = if env.deny_client || env.require_nts == 1 { Kind::Deny } else { Kind::Time };
+            check_header_v5(resp, msg, expect, env);
+            // independent field walk
+            let mut pos = 48;
+            let mut uid_seen = 0;
+            let mut ref_seen = 0;
+            let mut draft_seen = 0;
+            let mut fields = 0;
+            while pos < n && fields < 5 {
+                assert!(pos + 4 <= n, "field header inside the answer");
+                let ty = rd16(resp, pos);
+                let l = rd16(resp, pos + 2) as usize;
+                let padded = (l + 3) & !3;
+                assert!(l >= 4 && l <= 64 && pos + padded <= n, "answer field is well-formed");
+                if ty == EF_UID {
+                    assert!(uid_seen == 0 && ref_seen == 0 && draft_seen == 0, "identifier echo comes first, once");
+                    assert!(l == 12 && same(resp, pos + 4, msg, 52, 8), "unique identifier echoed unchanged");
+                    uid_seen += 1;
+                } else if ty == EF_V5_REFID_RESP {
+                    assert!(expect == Kind::Time && ref_seen == 0, "one reference-id response, in time answers only");
+                    assert!(l == 12 && bloom_off + 8 <= 512, "response covers the requested slice");
+                    let mut i = 0;
+                    while i < 8 {
+                        assert!(resp[pos + 4 + i] == bloom[bloom_off + i], "response carries the requested bloom filter bytes");
+                        i += 1;
+                    }
+                    ref_seen += 1;
+                } else if ty == EF_V5_DRAFT {
+                    assert!(l == 27 && same(resp, pos + 4, DRAFT, 0, 23) && resp[pos + 27] == 0, "draft identification is the constant");
+                    draft_seen += 1;
+                } else if ty == EF_V5_PADDING {
+                    assert!(expect == Kind::Time && all_zero(resp, pos + 4, padded - 4), "padding is zero");
+                } else {
+                    assert!(false, "answer contains a field that is not an echo, a reference-id response, the draft id or padding");
+                }
+                pos += padded;
+                fields += 1;
             }
-            Some(n) => {
-                let expect = if env.deny_client || env.require_nts == 1 { Kind::Deny } else { Kind::Time };
-                check_header_v34(&buf[..n], msg, expect, &env);
-                check_v4_fields_are_uid_echoes(buf, n, msg, &[(52, 8), (80, 32)]);
-                kani::cover!(expect == Kind::Time, "time answer with echoed identifiers");
-                kani::cover!(expect == Kind::Deny, "DENY answer with echoed identifiers");
+            assert!(pos == n, "fields cover the answer exactly");
+            assert!(uid_seen == 1 && draft_seen == 1, "identifier echoed, draft id present");
+            if expect == Kind::Time {
+                assert!((ref_seen == 1) == (bloom_off + 8 <= 512), "reference-id response iff the requested slice exists");
             }
+            kani::cover!(expect == Kind::Time && ref_seen == 1 && bloom_off > 0, "time answer with bloom filter slice");
+            kani::cover!(expect == Kind::Time && ref_seen == 0, "time answer, slice out of range");
+            kani::cover!(expect == Kind::Deny, "v5 DENY");
         }
     }
 }
 
 srv_harness! {
-    #[kani::unwind(7)]
+    #[kani::unwind(9)]
     fn c18_reflect_v5() {
-        // T{ header48 | uid(8) | refid-request(offset, 8 bytes) | other(type T, 4 bytes) | draft-id }
+        // T{ header48 | uid(8) | refid-request(offset, 8 bytes) | other(unknown type, 4 bytes) | draft-id }
+        // constant: first byte, timescale/flags (the v5 header parser rejects other values through
+        // `?`, which would make the parse result symbolic), field types/lengths, draft string.
         const LEN: usize = 48 + 12 + 12 + 8 + 28;
         let mut backing: [u8; LEN + SLACK] = kani::any();
         let msg = &mut backing[..LEN];
         let bloom: [u8; 512] = kani::any();
         let env = Env::any();
-        msg[0] = 0x2B; // LI 0, version 5, request mode (constant: see echo_plain)
+        msg[0] = 0x2B; // LI 0, version 5, request mode
+        msg[12] = 0; // timescale UTC
+        msg[14] = 0; // flags
+        msg[15] = 0;
         put_ef(msg, 48, EF_UID, 12);
         put_ef(msg, 60, EF_V5_REFID_REQ, 12);
         put_ef(msg, 72, OTHER_TYPE, 8);
         put_ef(msg, 80, EF_V5_DRAFT, 27);
-        let mut i = 0;
-        while i < 23 {
-            msg[84 + i] = DRAFT[i];
-            i += 1;
-        }
+        macro_rules! put_draft { ($($i:expr),*) => { $( msg[84 + $i] = DRAFT[$i]; )* } }
+        put_draft!(0, 1, 2, 3, 4, 5, 6, 7, 8, 9, 10, 11, 12, 13, 14, 15, 16, 17, 18, 19, 20, 21, 22);
         msg[107] = 0;
-
-        let mut server = env.server(bh::bloom_from_bytes(bloom), empty_keyset());
-        let mut stats = RecStats::default();
-        let mut buf_backing = [0u8; BUF + SLACK];
-        let buf = &mut buf_backing[..BUF];
-        let out = handle_once(&mut server, &env, msg, buf, &mut stats);
-        std::mem::forget(server);
-
-        let header_ok = msg[12] <= 3 && msg[14] == 0 && msg[15] & 0xF8 == 0;
-        let bloom_off = rd16(msg, 64) as usize;
-        match out {
-            None => {
-                assert!(!header_ok || env.require_nts == 2, "well-formed client request is answered");
-            }
-            Some(n) => {
-                let resp = &buf[..n];
-                let expect = if env.deny_client || env.require_nts == 1 { Kind::Deny } else { Kind::Time };
-                check_header_v5(resp, msg, expect, &env);
-                // independent field walk
-                let mut pos = 48;
-                let mut uid_seen = 0;
-                let mut ref_seen = 0;
-                let mut draft_seen = 0;
-                let mut fields = 0;
-                while pos < n && fields < 6 {
-                    assert!(pos + 4 <= n, "field header inside the answer");
-                    let ty = rd16(resp, pos);
-                    let l = rd16(resp, pos + 2) as usize;
-                    let padded = (l + 3) & !3;
-                    assert!(l >= 4 && pos + padded <= n, "answer field is well-formed");
-                    if ty == EF_UID {
-                        assert!(uid_seen == 0 && ref_seen == 0 && draft_seen == 0, "identifier echo comes first, once");
-                        assert!(l == 12 && same(resp, pos + 4, msg, 52, 8), "unique identifier echoed unchanged");
-                        uid_seen += 1;
-                    } else if ty == EF_V5_REFID_RESP {
-                        assert!(expect == Kind::Time && ref_seen == 0, "one reference-id response, in time answers only");
-                        assert!(l == 12 && bloom_off + 8 <= 512, "response covers the requested slice");
-                        let mut i = 0;
-                        while i < 8 {
-                            assert!(resp[pos + 4 + i] == bloom[bloom_off + i], "response carries the requested bloom filter bytes");
-                            i += 1;
-                        }
-                        ref_seen += 1;
-                    } else if ty == EF_V5_DRAFT {
-                        assert!(l == 27 && same(resp, pos + 4, DRAFT, 0, 23) && resp[pos + 27] == 0, "draft identification is the constant");
-                        draft_seen += 1;
-                    } else if ty == EF_V5_PADDING {
-                        assert!(expect == Kind::Time && all_zero(resp, pos + 4, padded - 4), "padding is zero");
-                    } else {
-                        assert!(false, "answer contains a field that is not an echo, a reference-id response, the draft id or padding");
-                    }
-                    pos += padded;
-                    fields += 1;
-                }
-                assert!(pos == n, "fields cover the answer exactly");
-                assert!(uid_seen == 1 && draft_seen == 1, "identifier echoed, draft id present");
-                if expect == Kind::Time {
-                    assert!((ref_seen == 1) == (bloom_off + 8 <= 512), "reference-id response iff the requested slice exists");
-                }
-                kani::cover!(expect == Kind::Time && ref_seen == 1 && bloom_off > 0, "time answer with bloom filter slice");
-                kani::cover!(expect == Kind::Time && ref_seen == 0, "time answer, slice out of range");
-                kani::cover!(expect == Kind::Deny, "v5 DENY");
-            }
-        }
+        // bloom filter offset of the reference-id request: constant per run (a symbolic offset
+        // makes `to_response`'s Option symbolic): inside, last valid slice, out of range
+        wr16(msg, 64, 8);
+        reflect_v5_once(msg, &env.with(Policy::Serve), &bloom);
+        reflect_v5_once(msg, &env.with(Policy::DenyAddress), &bloom);
+        wr16(msg, 64, 504);
+        reflect_v5_once(msg, &env.with(Policy::Serve), &bloom);
+        wr16(msg, 64, 510);
+        reflect_v5_once(msg, &env.with(Policy::Serve), &bloom);
     }
 }
